@@ -50,6 +50,19 @@ def cfgs_with_O0(tier, inc):
 
 FPREF = [("ref/fpref.cpp", ["-O0", "-frounding-math", "-ffp-contract=off", "-w"])]
 
+def cfgs_alloc(tier, inc):
+    """the three implementations selected by the build: C++11/14 over-allocation, C++17/20 aligned_alloc, SSE _mm_malloc; each plain, under ASan+UBSan and under UBSan-trap"""
+    out = []
+    for macros, std in (([], "c++11"), ([], "c++14"), ([], "c++17"), ([], "c++20"), (["SSE2"], "c++11"), (["SSE2"], "c++17")):
+        out.append(C.Config(macros, cxx="g++", std=std, opt="-O1"))
+        out.append(C.Config(macros, cxx="g++", std=std, opt="-O1", san="asan"))
+        out.append(C.Config(macros, cxx="clang++", std=std, opt="-O1", san="ubtrap"))
+        if tier != "quick":
+            out.append(C.Config(macros, cxx="clang++", std=std, opt="-O2"))
+            out.append(C.Config(macros, cxx="g++", std=std, opt="-O0", san="asan"))
+    return out
+
+
 PROPS = {
     "C01": {"id": "C01", "source": "c01.cpp", "files": INT_VEC_FILES, "min_configs": {"quick": 8, "thorough": 30},
             "configs": cfgs_with_san, "ub_is_violation": True, "digest_binding": True},
@@ -80,10 +93,17 @@ PROPS = {
             "min_configs": {"quick": 8, "thorough": 30}, "configs": cfgs_scalar_sets, "cxxflags": ["-frounding-math", "-ffp-contract=off"], "ref_sources": FPREF,
             "optional_classes": ["scalar_and_vector_differ_only_in_zero_sign"]},
     "C17": {"id": "C17", "source": "c17.cpp", "files": INT_VEC_FILES + [VEC + "Vectors.hpp", "include/avel/Misc.hpp"], "min_configs": {"quick": 8, "thorough": 30}},
+    "C18": {"id": "C18", "source": "c18.cpp", "files": ["include/avel/Aligned_allocator.hpp"], "min_configs": {"quick": 6, "thorough": 10}, "configs": cfgs_alloc, "ub_is_violation": True,
+            "max_success": {"quick": 500, "thorough": 20000}},
     "C02": {"id": "C02", "source": "c02.cpp", "files": INT_VEC_FILES + FLT_VEC_FILES, "min_configs": {"quick": 8, "thorough": 30}, "digest_binding": True},
 }
 
 MANIFEST_TEXT = {
+    "C18": {
+        "technique": "model-based (stateful) property testing: rapidcheck-generated and enumerated allocate/deallocate/fill/verify/rebind/std::vector histories on 16 Aligned_allocator<T,A> instantiations, checked after every command against a shadow map of live ranges, in the three implementations selected by the build, each also under ASan+UBSan and UBSan-trap; libFuzzer target in the thorough tier",
+        "level": "Generated-history search: histories (shrunk as one value) of allocate(n) with n biased to 0, 1, odd byte sizes and exact multiples of A, deallocation in arbitrary order, re-fill, reallocation moves, rebound allocators and std::vector growth/copy/move/swap; invariants after every command: pointer aligned to A, live ranges pairwise disjoint, every byte (including the last) of every live block still holds its pattern; every block freed exactly once with its own n. Builds: no macro C++11/14 (over-allocation), no macro C++17/20 (aligned_alloc), AVEL_SSE2 (_mm_malloc); ASan reports (overflow, invalid free, leak) kill the process inside the Case and become a violation with that history as replay; UBSan runs in trap mode so undefined behaviour is a failing, shrinkable Case.",
+        "note": "Trusted: ASan/UBSan, glibc malloc, compilers. T of size 1,2,4,8,16,64 and A from alignof(T) to 4096 are a fixed pool of 16 instantiations, not all combinations. Block sizes are capped at 4 KiB (quick) / 64 KiB (thorough). Allocation failure (nullptr from malloc) is not injected.",
+    },
     "C17": {
         "technique": "property-based testing over a fixed table (snapshot of the pinned commit) of the 108 provided conversions + identities + bit_cast pairs: exhaustive 8/16-bit lane values and all mask patterns for N<=16, lattices + rapidcheck otherwise; static_cast-per-lane oracle, constructor == convert, round trip",
         "level": "Generated-input search over (source type, destination type, form) for convert<>, the converting constructors Vector<T,N>(Vector<U,N>) / Vector_mask<T,N>(Vector_mask<U,N>), the reverse conversion of the converted value, convert<V>(V), avel::bit_cast between same-size vectors, between masks of identical representation and between scalars; masks are read back through the primitive, extract<I> and count, and a non-canonical representation after a conversion is a failure.",
